@@ -17,6 +17,7 @@ import (
 	"errors"
 	"io"
 	"reflect"
+	"strconv"
 	"strings"
 	"sync"
 
@@ -49,6 +50,19 @@ type uSchema struct {
 	table string
 	cols  []string
 	pk    []int // indices of the primary-key columns, in table order
+	// column kinds ("" = BIGINT, scanned as uDB.scanKind says): "varchar" a nullable
+	// VARCHAR, "nullint" a nullable BIGINT, "decimal" a DECIMAL(10,2) NOT NULL. What the
+	// stub hands out per kind (driver value and scan type) is what go-sql-driver/mysql
+	// v1.6.0 (the version in go.mod) does for a prepared statement (binary protocol):
+	// fields.go scanType(), packets.go binaryRows.readRow.
+	kinds []string
+}
+
+func (s uSchema) kind(k int) string {
+	if k < len(s.kinds) {
+		return s.kinds[k]
+	}
+	return ""
 }
 
 func (s uSchema) isPK(k int) bool {
@@ -78,6 +92,7 @@ type uDB struct {
 	wrows     []uRow // state inside the open transaction
 	wlogs     []uLog
 	inTx      bool
+	txConn    *uConn // the connection the open transaction belongs to: statements on others autocommit
 	openTx    int
 	openConns int
 
@@ -108,8 +123,10 @@ func (d *uDB) step(what string) error {
 	return nil
 }
 
-func (d *uDB) cur() (*[]uRow, *[]uLog) {
-	if d.inTx {
+// cur: the state a statement on connection c works on - the open transaction's if c owns it,
+// the committed state (autocommit) otherwise.
+func (d *uDB) cur(c *uConn) (*[]uRow, *[]uLog) {
+	if d.inTx && (d.txConn == nil || d.txConn == c) {
 		return &d.wrows, &d.wlogs
 	}
 	return &d.rows, &d.logs
@@ -131,6 +148,7 @@ func (c *uConn) Begin() (driver.Tx, error) {
 		return nil, err
 	}
 	c.d.inTx = true
+	c.d.txConn = c
 	c.d.openTx++
 	c.d.wrows = cloneRows(c.d.rows)
 	c.d.wlogs = append([]uLog(nil), c.d.logs...)
@@ -138,7 +156,7 @@ func (c *uConn) Begin() (driver.Tx, error) {
 }
 func (c *uConn) Prepare(q string) (driver.Stmt, error) {
 	// collapse runs of blanks so that statement shapes can be matched by prefix
-	return &uStmt{d: c.d, q: strings.Join(strings.Fields(q), " ")}, nil
+	return &uStmt{d: c.d, c: c, q: strings.Join(strings.Fields(q), " ")}, nil
 }
 
 type uTx struct{ d *uDB }
@@ -163,6 +181,7 @@ func (t *uTx) Rollback() error {
 
 type uStmt struct {
 	d *uDB
+	c *uConn
 	q string
 }
 
@@ -237,7 +256,7 @@ func (s *uStmt) matchPK(r uRow, cols []int, vals []driver.Value) bool {
 func (s *uStmt) Exec(args []driver.Value) (driver.Result, error) {
 	d := s.d
 	lq := strings.ToLower(s.q)
-	rows, logs := d.cur()
+	rows, logs := d.cur(s.c)
 	switch {
 	case strings.HasPrefix(lq, "delete from undo_log"):
 		if err := d.step("DELETE undo_log"); err != nil {
@@ -298,7 +317,7 @@ func (s *uStmt) Exec(args []driver.Value) (driver.Result, error) {
 			r := &(*rows)[k]
 			if r.present && s.matchPK(*r, whereCols, args[len(setCols):]) {
 				for j, c := range setCols {
-					r.cells[c] = args[j]
+					r.cells[c] = uStore(d.schema.kind(c), args[j])
 				}
 				n++
 			}
@@ -349,7 +368,7 @@ func (s *uStmt) Exec(args []driver.Value) (driver.Result, error) {
 				d.bad = s.q
 				return nil, errors.New("stub: unknown column in " + s.q)
 			}
-			nr.cells[c] = args[j]
+			nr.cells[c] = uStore(d.schema.kind(c), args[j])
 		}
 		for _, r := range *rows {
 			if r.present && s.matchPK(r, d.schema.pk, pkVals(nr, d.schema)) {
@@ -362,6 +381,22 @@ func (s *uStmt) Exec(args []driver.Value) (driver.Result, error) {
 	}
 	d.bad = s.q
 	return nil, errors.New("stub: unexpected statement " + s.q)
+}
+
+// uStore: the cell a column of the given kind holds after being assigned v.
+func uStore(kind string, v driver.Value) driver.Value {
+	if b, ok := v.([]byte); ok {
+		v = string(b)
+	}
+	if kind == "decimal" {
+		switch x := v.(type) {
+		case float64:
+			return strconv.FormatFloat(x, 'f', 2, 64)
+		case int64:
+			return strconv.FormatInt(x, 10) + ".00"
+		}
+	}
+	return v
 }
 
 func pkVals(r uRow, s uSchema) []driver.Value {
@@ -397,7 +432,7 @@ func (r *uRows) ColumnTypeDatabaseTypeName(i int) string {
 func (s *uStmt) Query(args []driver.Value) (driver.Rows, error) {
 	d := s.d
 	lq := strings.ToLower(s.q)
-	rows, logs := d.cur()
+	rows, logs := d.cur(s.c)
 	switch {
 	case strings.Contains(lq, "from undo_log") && strings.HasPrefix(lq, "select"):
 		if err := d.step("SELECT undo_log"); err != nil {
@@ -432,6 +467,10 @@ func (s *uStmt) Query(args []driver.Value) (driver.Rows, error) {
 		out := &uRows{cols: d.schema.cols}
 		for k := range d.schema.cols {
 			switch {
+			case d.schema.kind(k) == "varchar" || d.schema.kind(k) == "decimal":
+				out.scan = append(out.scan, reflect.TypeOf(sql.RawBytes{}))
+			case d.schema.kind(k) == "nullint":
+				out.scan = append(out.scan, reflect.TypeOf(sql.NullInt64{}))
 			case d.scanKind == 1 && !d.schema.isPK(k):
 				out.scan = append(out.scan, reflect.TypeOf(int64(0))) // BIGINT NOT NULL
 			case d.scanKind == 2 && !d.schema.isPK(k):
@@ -447,6 +486,12 @@ func (s *uStmt) Query(args []driver.Value) (driver.Rows, error) {
 			for t := 0; t+len(cols) <= len(args); t += len(cols) {
 				if s.matchPK(r, cols, args[t:t+len(cols)]) {
 					row := append([]driver.Value(nil), r.cells...)
+					for k := range row {
+						// character and decimal data arrive as bytes
+						if v, ok := row[k].(string); ok {
+							row[k] = []byte(v)
+						}
+					}
 					if d.scanKind == 2 {
 						// an unsigned column: the driver hands out uint64
 						for k := range row {
@@ -482,6 +527,14 @@ func uTableMeta(s uSchema) *types.TableMeta {
 	var pkCols []types.ColumnMeta
 	for k, c := range s.cols {
 		cm := types.ColumnMeta{Table: s.table, ColumnName: c, ColumnType: "bigint", DatabaseTypeString: "BIGINT", DatabaseType: int32(types.JDBCTypeBigInt)}
+		switch s.kind(k) {
+		case "varchar":
+			cm.ColumnType, cm.DatabaseTypeString, cm.DatabaseType, cm.IsNullable = "varchar", "VARCHAR", int32(types.JDBCTypeVarchar), 1
+		case "nullint":
+			cm.IsNullable = 1
+		case "decimal":
+			cm.ColumnType, cm.DatabaseTypeString, cm.DatabaseType = "decimal", "DECIMAL", int32(types.JDBCTypeDecimal)
+		}
 		m.Columns[c] = cm
 		if s.isPK(k) {
 			pkCols = append(pkCols, cm)
@@ -529,7 +582,19 @@ func uImage(s uSchema, sqlType types.SQLType, rows [][]driver.Value) *types.Reco
 			if s.isPK(k) {
 				kt = types.IndexTypePrimaryKey
 			}
-			cols = append(cols, types.ColumnImage{KeyType: kt, ColumnName: c, ColumnType: types.JDBCTypeBigInt, Value: r[k]})
+			ct, v := types.JDBCTypeBigInt, r[k]
+			switch s.kind(k) {
+			case "varchar":
+				ct = types.JDBCTypeVarchar
+			case "decimal":
+				// the image builder scans DECIMAL into a float64
+				ct = types.JDBCTypeDecimal
+				if txt, ok := v.(string); ok {
+					f, _ := strconv.ParseFloat(txt, 64)
+					v = f
+				}
+			}
+			cols = append(cols, types.ColumnImage{KeyType: kt, ColumnName: c, ColumnType: ct, Value: v})
 		}
 		im.Rows = append(im.Rows, types.RowImage{Columns: cols})
 	}
@@ -540,6 +605,10 @@ var uSchemas = []uSchema{
 	{table: "t", cols: []string{"id", "a", "b"}, pk: []int{0}},
 	{table: "t", cols: []string{"id", "uid", "a"}, pk: []int{0, 1}},
 }
+
+// uTyped: a table with the column kinds the integer schemas leave out.
+var uTyped = uSchema{table: "t", cols: []string{"id", "name", "n"}, pk: []int{0}, kinds: []string{"", "varchar", "nullint"}}
+var uTypedDecimal = uSchema{table: "t", cols: []string{"id", "amount"}, pk: []int{0}, kinds: []string{"", "decimal"}}
 
 type uWorld struct {
 	d      *uDB
